@@ -459,6 +459,32 @@ func GenRichDecls(r *core.Rand, v *Vocab, o RichOpts) (D, map[string]int) {
 		_ = second
 		g.Stats["failing_xpath_dynamic_with_identical_twin"]++
 	}
+	// two declarations that are identical but for ignore_error, evaluated from the same cursor, the lenient one first: the function fails
+	// on the records that carry the marker in that field (on every record when the argument is the marker itself)
+	if o.FailFn && o.HarnessFns && r.Chance(1, 8) {
+		var arg D
+		if r.Chance(1, 3) {
+			arg = D{"const": "x FAIL! y"}
+		} else {
+			arg = D{"xpath": v.Single[r.Intn(len(v.Single))]}
+		}
+		mk := func(lenient bool) D {
+			b, _ := json.Marshal(arg)
+			var a D
+			json.Unmarshal(b, &a)
+			f := D{"name": "vf_fail", "args": []interface{}{a}}
+			if lenient {
+				f["ignore_error"] = true
+			}
+			return D{"custom_func": f}
+		}
+		first, second := "alenient", "zstrict"
+		if r.Chance(1, 4) {
+			first, second = "zlenient", "astrict"
+		}
+		obj[first], obj[second] = mk(true), mk(false)
+		g.Stats["lenient_strict_pair_of_identical_calls"]++
+	}
 	// a function of constants only, gated by its own xpath (matches for some records, not for others)
 	if r.Chance(1, 3) {
 		gate := g.pickPath(v, r.Bool())
